@@ -1,255 +1,327 @@
-"""C15 Field-level processors change schema and rows in lockstep (DESIGN §5 C15)."""
+"""C15 Field-level processors change schema and rows in lockstep (DESIGN §5 C15).
+
+All shape clauses work on normalised functions (module-local helpers inlined, canonical spellings) and compare expressions after
+resolving local temporaries, so that renaming, extracting a helper, introducing a temporary or flipping an if/else is not reported."""
 import ast
 
 from rules import abstypes, coupling, matchers, observers, stream
 from sa.deps import Facts, base_name, names_in, pseudo
 from sa.loader import AnalysisError, FuncInfo, own_nodes
-from sa.model import matcher_names, row_loops, rowloop_signature, u, where
+from sa.model import block_of, matcher_names, row_loops, rowloop_signature, u, where
+from sa.normalize import resolve_here
 from sa.paths import FALL, RAISE, Enumerator, path_nodes
+from sa.pattern import find_expr, find_stmt, has_expr, has_stmt, match_expr, match_stmt
 
 STEPS = ['select_fields', 'delete_fields', 'rename_fields', 'add_computed_field', 'find_replace']
+P = 'dataflows.processors.'
 
 
-def dict_rebuild(ctx, rule, fi, key_rule):
-    """Row wrappers that rebuild the row: yield dict((K, v) for k, v in row.items() [if k in cfg]) — value untouched."""
+def factory(ctx, name):
+    return ctx.repo.func('%s%s:%s' % (P, name, name))
+
+
+def step_of(ctx, name):
+    """The package step returned by the factory `name` (found by role: the nested generator taking `package`)."""
+    fac = factory(ctx, name)
+    cands = [f for f in ctx.repo.functions.values() if f.parent is fac and f.all_params == ['package'] and f.is_generator]
+    if len(cands) != 1:
+        raise AnalysisError('%s: package step not found' % fac.qualname)
+    return cands[0]
+
+
+def wrapper_of(ctx, name):
+    """The row wrapper a step hands its matched resources to (found by role: the callee of the wrap-yield on the MATCH path)."""
+    from sa.model import find_resloops, resloop_signature
+    st = step_of(ctx, name)
+    for rl in find_resloops(ctx.repo, ctx.res, st, ['package']):
+        if rl.kind != 'for':
+            continue
+        sigs, _ = resloop_signature(ctx.repo, ctx.res, rl)
+        for s in sigs:
+            if s.atoms.get(('MATCH',)) is True:
+                for k, y in s.yields:
+                    if k == 'wrap' and isinstance(y.value, ast.Call):
+                        tg = [t for t in ctx.res.resolve_call(y.value) if isinstance(t, FuncInfo)]
+                        if len(tg) == 1:
+                            idx = [i for i, a in enumerate(y.value.args) if pseudo(a) == rl.var]
+                            return tg[0], (idx[0] if idx else 0)
+    raise AnalysisError('%s: row wrapper not found' % st.qualname)
+
+
+def yielded_row_expr(ctx, w, idx=0):
+    """(loop, row var, resolved expression of what the wrapper yields per row) on the normalised wrapper."""
+    nw = ctx.N(w)
+    rls = row_loops(nw, streams=[nw.params[idx]])
+    if len(rls) != 1:
+        raise AnalysisError('%s: expected exactly one row loop' % w.qualname)
+    loop, var, src = rls[0]
+    ys = [y for y in ast.walk(loop) if isinstance(y, ast.Yield)]
+    if len(ys) != 1 or ys[0].value is None:
+        return nw, loop, var, None
+    return nw, loop, var, resolve_here(ys[0].value)
+
+
+def row_rebuilds(ctx):
     run, repo = ctx.run, ctx.repo
-    loop, var, src = observers.single_row_loop(ctx, fi)
-    sigs = rowloop_signature(fi, loop, var)
-    facts = Facts(fi, include_nested=False)
-    for s in sigs:
-        ok = len(s.yields) == 1 and s.term == FALL
-        gen = None
+    run.rule('ROWS', 'ROW-REBUILD: select/delete keep exactly the (key, value) pairs of the incoming row whose key is in the configured '
+                     'name set, values untouched; rename maps each key through the rename map, defaulting to the key itself, values '
+                     'untouched; every row is yielded exactly once')
+    for name in ('select_fields', 'delete_fields'):
+        w, i_ = wrapper_of(ctx, name)
+        nw, loop, var, e = yielded_row_expr(ctx, w, i_)
+        ok = e is not None and (match_expr('{_k: _v for (_k, _v) in _row.items() if _k in __CFG}', e) is not None)
         if ok:
-            v = s.yields[0][1].value
-            cands = [v] + list(facts.values_of(pseudo(v) or ''))
-            for c in cands:
-                if isinstance(c, ast.Call) and u(c.func) == 'dict' and c.args and isinstance(c.args[0], ast.GeneratorExp):
-                    gen = c.args[0]
-                if isinstance(c, ast.DictComp):
-                    gen = c
-        ok = ok and gen is not None and len(gen.generators) == 1
-        if ok:
-            g = gen.generators[0]
-            ok = isinstance(g.iter, ast.Call) and u(g.iter.func) == '%s.items' % var and isinstance(g.target, ast.Tuple)
-            if ok:
-                k, v_ = [t.id for t in g.target.elts]
-                if isinstance(gen, ast.DictComp):
-                    kexpr, vexpr = gen.key, gen.value
-                else:
-                    kexpr, vexpr = gen.elt.elts if isinstance(gen.elt, ast.Tuple) and len(gen.elt.elts) == 2 else (None, None)
-                ok = vexpr is not None and isinstance(vexpr, ast.Name) and vexpr.id == v_ and key_rule(kexpr, k, g)
-        run.check(ok, rule, where(repo, loop), fi.qualname, 'yield dict((key(k), v) for k, v in row.items() ...)',
-                  'the rebuilt row does not carry every kept value unchanged under the expected key')
+            b = match_expr('{_k: _v for (_k, _v) in _row.items() if _k in __CFG}', e)
+            ok = b['_row'] == var
+        run.check(ok, 'ROWS', w.where, w.qualname, 'yield {k: v for k, v in row.items() if k in <configured names>}',
+                  'the rebuilt row does not carry exactly the kept (key, value) pairs of the incoming row: found %s'
+                  % (u(e) if e is not None else 'no single yield'))
+    w, i_ = wrapper_of(ctx, 'rename_fields')
+    nw, loop, var, e = yielded_row_expr(ctx, w, i_)
+    b = match_expr('{__M.get(_k, _k): _v for (_k, _v) in _row.items()}', e) if e is not None else None
+    run.check(b is not None and b['_row'] == var, 'ROWS', w.where, w.qualname, 'yield {renames.get(k, k): v for k, v in row.items()}',
+              'the renamed row is not built by mapping every key through the rename map (default: the key itself) with the value '
+              'untouched: found %s' % (u(e) if e is not None else 'no single yield'))
 
 
-def select_delete_rename(ctx):
+def field_order(ctx):
     run, repo = ctx.run, ctx.repo
-    run.rule('ROWS', 'ROW-REBUILD: select/delete keep (k, v) pairs whose key is in the configured name set, values untouched; rename '
-                     'maps the key through the rename map defaulting to the key itself, values untouched')
-    for mod in ('select_fields', 'delete_fields'):
-        fi = repo.func('dataflows.processors.%s:process_resource' % mod)
-
-        def rule_keep(kexpr, k, g, fi=fi):
-            if not (isinstance(kexpr, ast.Name) and kexpr.id == k):
-                return False
-            if len(g.ifs) != 1:
-                return False
-            t = g.ifs[0]
-            return isinstance(t, ast.Compare) and isinstance(t.ops[0], ast.In) and pseudo(t.left) == k
-        dict_rebuild(ctx, 'ROWS', fi, rule_keep)
-    fi = repo.func('dataflows.processors.rename_fields:process_resource')
-
-    def rule_rename(kexpr, k, g):
-        return isinstance(kexpr, ast.Call) and isinstance(kexpr.func, ast.Attribute) and kexpr.func.attr == 'get' and \
-            [pseudo(a) for a in kexpr.args] == [k, k] and not g.ifs
-    dict_rebuild(ctx, 'ROWS', fi, rule_rename)
-
-    run.rule('ORD', 'FIELD-ORDER: select_fields builds the new field list with the user selection as the outer loop (selection order); '
-                    'delete_fields keeps the schema order; rename_fields renames in place; add_computed_field appends')
-    sf = repo.func('dataflows.processors.select_fields:select_fields.func')
-    apps = [c for c in ast.walk(sf.node) if isinstance(c, ast.Call) and isinstance(c.func, ast.Attribute)
-            and c.func.attr == 'append' and pseudo(c.func.value) == 'new_fields']
-    ok = False
-    for a in apps:
-        chain = []
-        p = a
-        while getattr(p, '_parent', None) is not None and p is not sf.node:
-            p = p._parent
-            if isinstance(p, ast.For):
-                chain.append(p)
-        # innermost first; the loop directly over the user's `fields` must enclose the loop over schema names
-        iters = [u(l.iter) for l in chain]
-        if len(chain) >= 2 and pseudo(chain[1].iter) == 'fields' and 'dp_fields' in iters[0]:
-            ok = True
-    run.check(ok and len(apps) == 1, 'ORD', sf.where, sf.qualname, 'for selected in fields: for name in schema names: append',
-              'select_fields does not emit fields in selection order')
-    # each schema field can be selected at most once (popped when matched)
-    pops = [c for c in ast.walk(sf.node) if isinstance(c, ast.Call) and isinstance(c.func, ast.Attribute) and c.func.attr == 'pop'
-            and pseudo(c.func.value) == 'dp_fields']
-    run.check(len(pops) == 1 and apps and pops[0] in list(ast.walk(apps[0])), 'ORD', sf.where, sf.qualname,
-              'new_fields.append(dp_fields.pop(name))', 'a field matched by two selections would be emitted twice')
-    df = repo.func('dataflows.processors.delete_fields:delete_fields.func')
-    apps = [c for c in ast.walk(df.node) if isinstance(c, ast.Call) and isinstance(c.func, ast.Attribute)
-            and c.func.attr == 'append' and pseudo(c.func.value) == 'new_fields']
-    ok = False
-    for a in apps:
-        p = a
+    run.rule('ORD', 'FIELD-ORDER: select_fields fills the new field list with the user selection as the outer loop (selection order) and '
+                    'takes each schema field at most once; delete_fields keeps the surviving fields in schema order; rename_fields '
+                    'renames the schema field in place with the same (old, new) pair it records for the rows; add_computed_field appends')
+    # --- select_fields
+    st = ctx.N(step_of(ctx, 'select_fields'))
+    fac = factory(ctx, 'select_fields')
+    user_sel = fac.params[0]
+    stores = [n for n in ast.walk(st.node) if isinstance(n, ast.Assign) and isinstance(n.targets[0], ast.Subscript)
+              and u(n.targets[0]).endswith("['fields']") and isinstance(n.value, ast.Name)]
+    if len(stores) != 1:
+        raise AnalysisError('select_fields: store of the new field list not found')
+    lst = stores[0].value.id
+    apps = [c for c in ast.walk(st.node) if isinstance(c, ast.Call) and isinstance(c.func, ast.Attribute)
+            and c.func.attr in ('append', 'extend', 'insert') and pseudo(c.func.value) == lst]
+    ok = len(apps) == 1 and apps[0].func.attr == 'append'
+    once = False
+    if ok:
+        a = apps[0]
         fors = []
-        while getattr(p, '_parent', None) is not None and p is not df.node:
+        p = a
+        while getattr(p, '_parent', None) is not None and p is not st.node:
             p = p._parent
             if isinstance(p, ast.For):
                 fors.append(p)
-        if fors and pseudo(fors[0].iter) == 'schema_fields' and pseudo(a.args[0]) == fors[0].target.id:
-            # guarded by `not skip`
-            ok = isinstance(a._parent._parent, ast.If) and 'skip' in u(a._parent._parent.test)
-    run.check(ok and len(apps) == 1, 'ORD', df.where, df.qualname, 'for sf in schema_fields: if not skip: new_fields.append(sf)',
+        # innermost first: some loop over the user's selection encloses a loop over the schema's fields
+        sel_idx = [i for i, l in enumerate(fors) if pseudo(l.iter) == user_sel]
+        ok = bool(sel_idx) and sel_idx[0] >= 1
+        # at most once: the appended field is removed from the candidate pool, or guarded by a not-yet-taken test
+        arg = resolve_here(a.args[0])
+        blk = block_of(a._parent) or []
+        txt = ' '.join(u(s) for s in blk)
+        once = (isinstance(arg, ast.Call) and isinstance(arg.func, ast.Attribute) and arg.func.attr == 'pop') or \
+            '.remove(' in txt or 'del ' in txt or any(isinstance(x, ast.Compare) and isinstance(x.ops[0], ast.NotIn)
+                                                      for l in fors[:1] for x in ast.walk(l))
+    run.check(ok, 'ORD', st.where, st.qualname, 'for selected in <selection>: for name in <schema names>: new_fields.append(...)',
+              'select_fields does not emit the fields in selection order')
+    run.check(once, 'ORD', st.where, st.qualname, 'a selected field leaves the candidate pool (pop / remove / not-in guard)',
+              'a field matched by two selection patterns is put into the schema twice while each row carries it once')
+    # --- delete_fields
+    st = ctx.N(step_of(ctx, 'delete_fields'))
+    stores = [n for n in ast.walk(st.node) if isinstance(n, ast.Assign) and isinstance(n.targets[0], ast.Subscript)
+              and u(n.targets[0]).endswith("['fields']") and isinstance(n.value, ast.Name)]
+    if len(stores) != 1:
+        raise AnalysisError('delete_fields: store of the new field list not found')
+    lst = stores[0].value.id
+    apps = [c for c in ast.walk(st.node) if isinstance(c, ast.Call) and isinstance(c.func, ast.Attribute)
+            and c.func.attr in ('append', 'extend', 'insert') and pseudo(c.func.value) == lst]
+    comp = [n.value for n in ast.walk(st.node) if isinstance(n, ast.Assign) and pseudo(n.targets[0]) == lst
+            and isinstance(n.value, ast.ListComp)]
+    ok = False
+    if len(apps) == 1 and apps[0].func.attr == 'append':
+        a = apps[0]
+        p = a
+        first_for = None
+        fors = []
+        while getattr(p, '_parent', None) is not None and p is not st.node:
+            p = p._parent
+            if isinstance(p, ast.For):
+                fors.append(p)
+        # the appended object is the loop variable of a loop over the schema's own field list
+        for l in fors:
+            if isinstance(l.target, ast.Name) and pseudo(a.args[0]) == l.target.id:
+                src = resolve_here(l.iter)
+                ok = "'fields'" in u(src) and not (isinstance(src, ast.Call) and u(src.func) in ('sorted', 'reversed'))
+    elif len(comp) == 1 and len(comp[0].generators) == 1:
+        g = comp[0].generators[0]
+        src = resolve_here(g.iter)
+        ok = pseudo(comp[0].elt) == pseudo(g.target) and "'fields'" in u(src)
+    run.check(ok, 'ORD', st.where, st.qualname, 'surviving fields are appended while walking the schema field list in order',
               'delete_fields does not keep the surviving fields in schema order')
-    # skip is set exactly when some pattern matches the field name
-    skips = [n for n in ast.walk(df.node) if isinstance(n, ast.Assign) and pseudo(n.targets[0]) == 'skip']
-    tr = [n for n in skips if isinstance(n.value, ast.Constant) and n.value.value is True]
-    run.check(len(tr) == 1 and isinstance(tr[0]._parent, ast.If) and '.match(' in u(tr[0]._parent.test) and
-              "['name']" in u(tr[0]._parent.test), 'ORD', df.where, df.qualname, "if f.match(sf['name']): skip = True",
-              'a field is dropped although no pattern matches its name (or kept although one does)')
-    rf = repo.func('dataflows.processors.rename_fields:rename_fields.func')
-    stores = [n for n in ast.walk(rf.node) if isinstance(n, ast.Assign) and u(n.targets[0]) == "sf['name']"]
-    ok = len(stores) == 1
+    # --- rename_fields
+    st = ctx.N(step_of(ctx, 'rename_fields'))
+    ren = find_stmt("_sf['name'] = _new", st.node)
+    ok = len(ren) == 1
     if ok:
-        st = stores[0]
-        cond = st._parent
-        ok = isinstance(cond, ast.If) and '.match(sf_name)' in u(cond.test)
-        facts = Facts(rf, include_nested=False)
-        tn = pseudo(st.value)
-        vals = facts.values_of(tn)
-        ok = ok and len(vals) == 1 and isinstance(vals[0], ast.Call) and isinstance(vals[0].func, ast.Attribute) and \
-            vals[0].func.attr == 'sub' and [pseudo(a) for a in vals[0].args] == ['tgt', 'sf_name']
-        # the row map gets old -> new for exactly that field, first matching pattern wins (break)
-        maps = [n for n in cond.body if isinstance(n, ast.Assign) and u(n.targets[0]) == 'renames[res_name][sf_name]'
-                and pseudo(n.value) == tn]
-        ok = ok and len(maps) == 1 and isinstance(cond.body[-1], ast.Break)
-    run.check(ok, 'ORD', rf.where, rf.qualname, "if src.match(name): target = src.sub(tgt, name); renames[res][name] = target; sf['name'] = target; break",
-              'rename_fields does not rename schema and row map with the same (old, new) pair in place')
+        node, b = ren[0]
+        blk = block_of(node)
+        new = b['_new']
+        maps = [m for s_ in blk for m in [match_stmt('__MAP[_old] = _new', s_, {'_new': new})] if m is not None]
+        ok = len(maps) == 1
+        if ok:
+            old = maps[0]['_old']
+            oldv = None
+            for n in ast.walk(st.node):
+                if isinstance(n, ast.Assign) and pseudo(n.targets[0]) == old:
+                    oldv = n.value
+            newv = None
+            for n in ast.walk(st.node):
+                if isinstance(n, ast.Assign) and pseudo(n.targets[0]) == new:
+                    newv = n.value
+            ok = oldv is not None and match_expr("_sf['name']", oldv, {'_sf': b['_sf']}) is not None and newv is not None and \
+                match_expr('_pat.sub(__TGT, _old)', newv, {'_old': old}) is not None
+            # the rename happens under "this pattern matches the old name", first match wins
+            cond = node._parent
+            ok = ok and isinstance(cond, ast.If) and match_expr('_pat.match(_old)', cond.test, {'_old': old}) is not None and \
+                isinstance(blk[-1], ast.Break)
+    run.check(ok, 'ORD', st.where, st.qualname,
+              "if pat.match(old): new = pat.sub(tgt, old); <row map>[old] = new; field['name'] = new; break",
+              'rename_fields does not rename the schema field in place with the same (old name, new name) pair it records for the rows')
+    # --- add_computed_field appends
+    st = ctx.N(step_of(ctx, 'add_computed_field'))
+    ext = [c for c in ast.walk(st.node) if isinstance(c, ast.Call) and isinstance(c.func, ast.Attribute)
+           and c.func.attr in ('extend', 'append', 'insert') and "['fields']" in u(c.func.value)]
+    slices = [n for n in ast.walk(st.node) if isinstance(n, ast.Assign) and isinstance(n.targets[0], ast.Subscript)
+              and isinstance(n.targets[0].slice, ast.Slice) and "['fields']" in u(n.targets[0].value)]
+    run.check(len(ext) >= 1 and all(c.func.attr in ('extend', 'append') for c in ext) and not slices, 'ORD', st.where, st.qualname,
+              "resource['schema']['fields'].extend(new_fields)", 'new fields are not appended after the existing ones')
 
 
 def computed_and_replace(ctx):
     run, repo = ctx.run, ctx.repo
-    run.rule('CMP', 'COMPUTED/REPLACE: add_computed_field computes from the non-null source values of that row alone and stores only '
-                    'under the target name, yielding the same row; find_replace reads and writes the same listed field, applying the '
-                    'patterns sequentially; both yield each row exactly once')
-    pr = repo.func('dataflows.processors.add_computed_field:process_resource')
-    loop, var, src = observers.single_row_loop(ctx, pr, 'rows')
+    run.rule('CMP', 'COMPUTED/REPLACE: add_computed_field applies the operation named by the field spec to exactly the non-null source '
+                    'values of that row and stores the result only under the target name, yielding the same row; find_replace reads '
+                    'and writes the same listed field, substituting pattern after pattern; both yield each row exactly once')
+    w, i_ = wrapper_of(ctx, 'add_computed_field')
+    pr = ctx.N(w)
+    loop, var, src = observers.single_row_loop(ctx, pr, pr.params[i_])
     sigs = rowloop_signature(pr, loop, var)
-    for s in sigs:
-        run.check([k for k, _ in s.yields] == ['identity'] and s.term == FALL, 'CMP', where(repo, loop), pr.qualname,
-                  s.describe()[:150], 'add_computed_field does not yield each row exactly once')
+    run.check(all([k for k, _ in s.yields] == ['identity'] and s.term == FALL for s in sigs), 'CMP', where(repo, loop), w.qualname,
+              'yield row once per row', 'add_computed_field does not yield each row exactly once')
     stores = [n for n in ast.walk(loop) if isinstance(n, ast.Assign) and isinstance(n.targets[0], ast.Subscript)
               and pseudo(n.targets[0].value) == var]
-    facts = Facts(pr, include_nested=False)
     ok = bool(stores)
+    fieldvar = None
     for st in stores:
-        key = pseudo(st.targets[0].slice)
-        kv = facts.values_of(key or '')
-        ok = ok and len(kv) == 1 and u(kv[0]) == "field['target']['name']"
-    run.check(ok, 'CMP', where(repo, loop), pr.qualname, "row[field['target']['name']] = ...",
+        key = resolve_here(st.targets[0].slice)
+        b = match_expr("_f['target']['name']", key)
+        ok = ok and b is not None
+        fieldvar = b['_f'] if b else fieldvar
+    run.check(ok, 'CMP', where(repo, loop), w.qualname, "row[field['target']['name']] = ...",
               'a computed value is stored under a key other than the target field name')
-    # values: non-null source values of this row
-    vals = [v for v in facts.values_of('values') if isinstance(v, ast.ListComp)]
-    ok = len(vals) == 1
+    agg = [st for st in stores if match_expr('AGGREGATORS[__OP].func(__VALS, __W, _row)', resolve_here(st.value), {'_row': var}) is not None]
+    ok = len(agg) == 1
     if ok:
-        lc = vals[0]
-        g = lc.generators[0]
-        ok = u(lc.elt) in ('%s.get(%s)' % (var, g.target.id), '%s[%s]' % (var, g.target.id)) and \
-            "field.get('source'" in u(g.iter) and len(g.ifs) == 1 and 'is not None' in u(g.ifs[0]) and var in names_in(g.ifs[0])
-    run.check(ok, 'CMP', where(repo, loop), pr.qualname, "values = [row.get(c) for c in field.get('source', []) if row.get(c) is not None]",
-              'the operation is not applied to exactly the non-null source values of the row')
-    calls = [c for c in ast.walk(loop) if isinstance(c, ast.Call) and isinstance(c.func, ast.Attribute) and c.func.attr == 'func'
-             and 'AGGREGATORS[' in u(c.func)]
-    run.check(len(calls) == 1 and u(calls[0].func.value) == 'AGGREGATORS[op]' and pseudo(calls[0].args[0]) == 'values'
-              and pseudo(calls[0].args[2]) == var, 'CMP', where(repo, loop), pr.qualname, 'AGGREGATORS[op].func(values, with_, row)',
+        b = match_expr('AGGREGATORS[__OP].func(__VALS, __W, _row)', resolve_here(agg[0].value), {'_row': var})
+        ok = match_expr("_f['operation']", b['__OP'], {'_f': fieldvar}) is not None
+        vals = b['__VALS']
+        okv = match_expr("[_row.get(_c) for _c in _f.get('source', []) if _row.get(_c) is not None]", vals,
+                         {'_row': var, '_f': fieldvar}) is not None or \
+            match_expr("[_row[_c] for _c in _f.get('source', []) if _row.get(_c) is not None]", vals, {'_row': var, '_f': fieldvar}) is not None
+        run.check(okv, 'CMP', where(repo, loop), w.qualname,
+                  "values = [row.get(c) for c in field.get('source', []) if row.get(c) is not None]",
+                  'the operation is not applied to exactly the non-null source values of the row (found %s)' % u(vals))
+    run.check(ok, 'CMP', where(repo, loop), w.qualname, "AGGREGATORS[field['operation']].func(values, with_, row)",
               'the operation named by the field spec is not the one applied')
-    # operation table name/builtin agreement
-    m, table = abstypes.table_entries(ctx, 'dataflows.processors.add_computed_field', 'AGGREGATORS')
-    expect = {'sum': 'sum(values)', 'max': 'max(values)', 'min': 'min(values)', 'avg': 'sum(values) / len(values)',
-              'constant': 'fstr', 'format': 'fstr.format(**row)'}
-    for k, body in expect.items():
+    # operation table: documented definitions (parameter names free)
+    m, table = abstypes.table_entries(ctx, P + 'add_computed_field', 'AGGREGATORS')
+    expect = {'sum': ['lambda _v, _f, _r: sum(_v)'], 'max': ['lambda _v, _f, _r: max(_v)'], 'min': ['lambda _v, _f, _r: min(_v)'],
+              'avg': ['lambda _v, _f, _r: sum(_v) / len(_v)', 'lambda _v, _f, _r: statistics.mean(_v)'],
+              'constant': ['lambda _v, _f, _r: _f'], 'format': ['lambda _v, _f, _r: _f.format(**_r)'],
+              'multiply': ['lambda _v, _f, _r: functools.reduce(lambda _x, _y: _x * _y, _v)', 'lambda _v, _f, _r: math.prod(_v)'],
+              'join': ['lambda _v, _f, _r: _f.join([str(_x) for _x in _v])', 'lambda _v, _f, _r: _f.join((str(_x) for _x in _v))',
+                       'lambda _v, _f, _r: _f.join(map(str, _v))']}
+    for k, pats in expect.items():
         lam = table[k].args[0] if k in table and isinstance(table[k], ast.Call) and table[k].args else None
-        run.check(isinstance(lam, ast.Lambda) and u(lam.body) == body and [a.arg for a in lam.args.args] == ['values', 'fstr', 'row'],
-                  'CMP', where(repo, table[k]) if k in table else m.relpath, m.name + ':<module>', 'AGGREGATORS[%r] = %s' % (k, body),
-                  'operation %r does not compute its documented definition' % k)
-    lam = table['multiply'].args[0]
-    run.check('reduce' in u(lam.body) and 'x * y' in u(lam.body) and u(lam.body).endswith('values)'), 'CMP', where(repo, table['multiply']),
-              m.name + ':<module>', "AGGREGATORS['multiply'] = reduce(x*y, values)", 'multiply is not the product of the values')
-    lam = table['join'].args[0]
-    run.check(u(lam.body) == 'fstr.join([str(x) for x in values])', 'CMP', where(repo, table['join']), m.name + ':<module>',
-              "AGGREGATORS['join'] = fstr.join(str(x) for x in values)", 'join is not the separator-joined string of the values')
-    # new fields appended, under MATCH (R7 covers the guard)
-    func = repo.func('dataflows.processors.add_computed_field:add_computed_field.func')
-    ext = [c for c in ast.walk(func.node) if isinstance(c, ast.Call) and isinstance(c.func, ast.Attribute)
-           and c.func.attr in ('extend', 'append', 'insert') and "['fields']" in u(c.func.value)]
-    run.check(len(ext) == 1 and ext[0].func.attr == 'extend', 'CMP', func.where, func.qualname,
-              "resource['schema']['fields'].extend(new_fields)", 'new fields are not appended after the existing ones')
+        run.check(lam is not None and any(match_expr(p_, lam) is not None for p_ in pats), 'CMP',
+                  where(repo, table[k]) if k in table else m.relpath, m.name + ':<module>', 'AGGREGATORS[%r] = %s' % (k, pats[0]),
+                  'operation %r does not compute its documented definition (found %s)' % (k, u(lam) if lam is not None else None))
     # find_replace
-    fr = repo.func('dataflows.processors.find_replace:_find_replace')
-    loop, var, src = observers.single_row_loop(ctx, fr, 'rows')
+    w, i_ = wrapper_of(ctx, 'find_replace')
+    fr = ctx.N(w)
+    loop, var, src = observers.single_row_loop(ctx, fr, fr.params[i_])
     sigs = rowloop_signature(fr, loop, var)
-    for s in sigs:
-        run.check([k for k, _ in s.yields] == ['identity'] and s.term == FALL, 'CMP', where(repo, loop), fr.qualname,
-                  s.describe()[:150], 'find_replace does not yield each row exactly once')
+    run.check(all([k for k, _ in s.yields] == ['identity'] and s.term == FALL for s in sigs), 'CMP', where(repo, loop), w.qualname,
+              'yield row once per row', 'find_replace does not yield each row exactly once')
     stores = [n for n in ast.walk(loop) if isinstance(n, ast.Assign) and isinstance(n.targets[0], ast.Subscript)
               and pseudo(n.targets[0].value) == var]
     ok = len(stores) == 1
     if ok:
         st = stores[0]
-        key = u(st.targets[0].slice)
-        c = st.value
-        ok = isinstance(c, ast.Call) and ctx.res.external_name(c) == 're.sub' and len(c.args) == 3 and \
-            u(c.args[2]) in ('str(%s[%s])' % (var, key), '%s[%s]' % (var, key)) and "['find']" in u(c.args[0]) and \
-            "['replace']" in u(c.args[1]) and key == "field['name']"
-        # nesting: patterns loop inside fields loop
+        key = resolve_here(st.targets[0].slice)
+        val = resolve_here(st.value)
+        b = match_expr('re.sub(__FIND, __REPL, __CUR)', val)
+        ok = b is not None and match_expr("_f['name']", key) is not None
+        if ok:
+            cur = b['__CUR']
+            ok = u(cur) in ('str(%s[%s])' % (var, u(key)), '%s[%s]' % (var, u(key))) and \
+                match_expr("str(_p['find'])", b['__FIND']) is not None and match_expr("str(_p['replace'])", b['__REPL']) is not None
         fors = []
         p = st
         while p is not loop:
             p = p._parent
             if isinstance(p, ast.For) and p is not loop:
                 fors.append(p)
-        ok = ok and len(fors) == 2 and "patterns" in u(fors[0].iter) and pseudo(fors[1].iter) == fr.params[1]
-    run.check(ok, 'CMP', where(repo, loop), fr.qualname, "row[f] = re.sub(find, replace, str(row[f])) for each pattern of each field",
+        ok = ok and len(fors) == 2 and "'patterns'" in u(fors[0].iter)
+    run.check(ok, 'CMP', where(repo, loop), w.qualname, "row[f] = re.sub(str(find), str(replace), str(row[f])) for each pattern of each field",
               'find_replace does not substitute sequentially within the listed field')
+
+
+def add_field_shape(ctx):
+    run = ctx.run
+    af = ctx.N(ctx.repo.func(P + 'add_field:add_field'))
+    calls = [c for c in ast.walk(af.node) if isinstance(c, ast.Call) and u(c.func) == 'add_computed_field']
+    ok = len(calls) == 1
+    if ok:
+        kws = {k.arg: resolve_here(k.value) for k in calls[0].keywords}
+        t = kws.get('target')
+        ok = t is not None and (match_expr('dict(name=name, type=type, **options)', t) is not None) and \
+            pseudo(kws.get('resources')) == 'resources' and 'operation' in kws and \
+            match_expr('default if callable(default) else (lambda _r: default)', kws['operation']) is not None
+    run.check(ok, 'CMP', af.where, af.qualname, 'add_computed_field(target=dict(name=, type=, **options), resources=, operation=default or constant)',
+              'add_field does not add the named, typed field with the default as its value')
 
 
 def check(ctx):
     run = ctx.run
-    steps = [ctx.repo.func('dataflows.processors.%s:%s.func' % (n, n)) for n in STEPS]
+    steps = [step_of(ctx, n) for n in STEPS]
     coupling.r11_function_steps(ctx, [s for s in steps if 'find_replace' not in s.qualname])
-    mods = {'dataflows.processors.%s' % n for n in STEPS}
+    mods = {P + n for n in STEPS}
     matchers.r9_anchored(ctx, mods, floor=3)
-    facs = [ctx.repo.func('dataflows.processors.%s:%s' % (n, n)) for n in ('select_fields', 'delete_fields', 'rename_fields')]
-    n = matchers.r9_escape_when_no_regex(ctx, facs)
+    n = matchers.r9_escape_when_no_regex(ctx, mods)
     run.floor('R9e', n, 3, 'regex-switch sites')
     stream.r7_guard_dominance(ctx, steps)
     stream.r6_identity(ctx, steps)
     stream.r6_count_agreement(ctx, steps)
     n29 = stream.r29_no_shared_fields(ctx, stream.package_phase_functions(ctx))
     run.floor('R29', n29, 8, 'schema field stores')
-    select_delete_rename(ctx)
+    row_rebuilds(ctx)
+    field_order(ctx)
     computed_and_replace(ctx)
     from rules import independence
-    independence.r28_functions(ctx, [('dataflows.processors.%s:process_resource' % m, {}) for m in
-                                     ('delete_fields', 'select_fields', 'rename_fields', 'add_computed_field')] +
-                               [('dataflows.processors.find_replace:_find_replace', {})])
+    specs = []
+    for nme in ('delete_fields', 'select_fields', 'rename_fields', 'add_computed_field', 'find_replace'):
+        w, _ = wrapper_of(ctx, nme)
+        specs.append((w.qualname, {}))
+    independence.r28_functions(ctx, specs)
     abstypes.r18_computed_field(ctx)
-    # add_field delegates to add_computed_field with the documented shape
-    af = ctx.repo.func('dataflows.processors.add_field:add_field')
-    calls = [c for c in own_nodes(af.node) if isinstance(c, ast.Call) and u(c.func) == 'add_computed_field']
-    ok = len(calls) == 1
-    if ok:
-        kws = {k.arg: k.value for k in calls[0].keywords}
-        ok = 'target' in kws and "name=name" in u(kws['target']) and 'type=type' in u(kws['target']) and \
-            pseudo(kws.get('resources')) == 'resources' and 'operation' in kws and 'default' in u(kws['operation'])
-    run.check(ok, 'CMP', af.where, af.qualname, 'add_computed_field(target=dict(name=, type=, **options), resources=, operation=default)',
-              'add_field does not add the named, typed field with the default as its value')
+    add_field_shape(ctx)
     run.not_decided += ['computed values themselves (arithmetic, string formatting) beyond the shape of the operation table',
                         'regex substitution semantics of rename_fields / find_replace on concrete names']
     return ('Def-use coupling between schema edits and row-wrapper configuration, anchoring and regex-switch rules for every '
             'pattern built from a field name, guard dominance and identity of unselected resources, shape of the row rebuild '
             '(values untouched, rename defaults to the key), field-order rules, and the operation table of add_computed_field '
-            'against its definitions and declared types.', [])
+            'against its definitions and declared types; shapes are compared on normalised functions with temporaries resolved.', [])
+
+
+# kept for C02, which reuses the row-rebuild clause
+def select_delete_rename(ctx):
+    row_rebuilds(ctx)
